@@ -21,9 +21,10 @@ func chainReopen(e *env) (*chain.DBStore, consensus.State, error) {
 func newManager(dbs *chain.DBStore, st consensus.State) *chain.Manager { return chain.NewManager(dbs, st) }
 
 var (
-	thrChoices       = []int{0, 1, 2, 3, 5, 30}
-	maxInChoices     = []int{0, 1, 2, 3, 4, 6, 9, 30}
-	maxDefragChoices = []int{0, 1, 2, 3, 10}
+	// negative values are accepted by the option functions; they behave like 0
+	thrChoices       = []int{-2, 0, 1, 2, 3, 5, 30}
+	maxInChoices     = []int{-1, 0, 1, 2, 3, 4, 6, 9, 30}
+	maxDefragChoices = []int{-3, -1, 0, 1, 2, 3, 10}
 )
 
 func randConfig(rng *vh.RNG, allowShort bool) config {
@@ -262,7 +263,13 @@ func (s *script) step() {
 		}
 		s.xspend(rng.Bool(), 1+rng.Intn(e.next-1), []int{0, 0, 300, 500, 1000}[rng.Intn(5)])
 	case r < 78:
-		s.mine(rng.Chance(1, 3))
+		if rng.Chance(1, 4) {
+			s.lag(1 + rng.Intn(3)) // the manager gets ahead of the wallet's store
+		} else if e.lagging > 0 && rng.Chance(1, 3) {
+			s.syncLag()
+		} else {
+			s.mine(rng.Chance(1, 3))
+		}
 	case r < 85:
 		if s.tieRisk(false) {
 			s.stopped = "tie-cut"
@@ -270,7 +277,7 @@ func (s *script) step() {
 		}
 		bal, err := e.w.Balance()
 		must(err)
-		outputs := []int{0, 1, 2, 3, 5, 11, 23}[rng.Intn(7)]
+		outputs := []int{-2, 0, 1, 2, 3, 5, 11, 23}[rng.Intn(8)]
 		amt := bal.Spendable.Div64(uint64(1 + rng.Intn(30)))
 		if rng.Chance(1, 6) {
 			sp, _ := e.w.SpendableOutputs()
@@ -294,7 +301,7 @@ func (s *script) step() {
 		}
 		bal, err := e.w.Balance()
 		must(err)
-		n := []int{0, 1, 2, 3, 4, 6}[rng.Intn(6)]
+		n := []int{-1, 0, 1, 2, 3, 4, 6}[rng.Intn(7)]
 		if e.cfg.thr >= 2 && rng.Chance(3, 4) {
 			n = 2 + rng.Intn(e.cfg.thr-1) // within the defrag threshold
 			if n > 7 {
@@ -463,7 +470,13 @@ func runScript(name string, seed uint64, allowShort bool, nOps int) *vh.Case {
 	cs := e.cm.TipState()
 	w1 := cs.V2TransactionWeight(types.V2Transaction{SiacoinOutputs: make([]types.SiacoinOutput, 1)})
 	w2 := cs.V2TransactionWeight(types.V2Transaction{SiacoinOutputs: make([]types.SiacoinOutput, 2)})
-	c.Model = fmt.Sprintf("funding std %d %d %d %d %d %d %d %d", cfg.thr, cfg.maxIn, cfg.maxDefrag, cfg.dur, 2*w1-w2, w2-w1, delay, e.height())
+	nn := func(v int) int { // the model's options are naturals: a negative option stands for 0
+		if v < 0 {
+			return 0
+		}
+		return v
+	}
+	c.Model = fmt.Sprintf("funding std %d %d %d %d %d %d %d %d", nn(cfg.thr), nn(cfg.maxIn), nn(cfg.maxDefrag), cfg.dur, 2*w1-w2, w2-w1, delay, e.height())
 	for _, d := range decl {
 		c.Op(d, "ok")
 	}
@@ -535,7 +548,7 @@ func Run(r *vh.Run) {
 	for _, c := range parallel(nConc, func(i int) *vh.Case { return runConcurrent(fmt.Sprintf("conc%d", i), cseeds[i]) }) {
 		r.Add(c)
 	}
-	r.Assume("the wallet is synced to the manager's tip whenever a wallet method is called (the harness syncs after every block)")
-	r.Assume("wallet options are natural numbers; ReservationDuration 1ns stands for the model's 0")
+	r.Assume("negative DefragThreshold / MaxInputsForDefrag / MaxDefragUTXOs / outputs / n stand for the model's 0; ReservationDuration 1ns stands for the model's 0")
+	r.Assume("while the wallet's store lags the manager (lag ops) only empty blocks separate them; a block that confirms pooled transactions is processed by the wallet at once")
 	r.Assume("ties: when more than 12 outputs with equal values could be sorted by Go's unstable sort, or equal-valued unconfirmed outputs could be picked in map order, the script is cut (tag cut:tie-cut)")
 }
